@@ -11,7 +11,7 @@ Definition res_ok (r : res) : bool := match r with ROk => true | _ => false end.
 (* single-request data operations *)
 Definition single_data_op (o : op) : bool :=
   match o with
-  | OPut _ _ _ _ _ | OGet _ _ _ _ | OUpdate _ _ _ _ _ _ _ | ODelete _ _ _ _ _ _
+  | OPut _ _ _ _ _ _ | OGet _ _ _ _ | OUpdate _ _ _ _ _ _ _ | ODelete _ _ _ _ _ _
   | OQuery _ _ _ _ _ _ _ _ _ _ | OScan _ _ _ _ _ _ _ _ | OBatchGet _ _ | OTransact => true
   | _ => false
   end.
@@ -41,14 +41,15 @@ Proof.
   - unfold scan_op. destruct (c_failure c); cbn; auto.
     destruct (validate_expr_attrs _ _ _); cbn; auto.
     destruct (lookup table (c_tables c)); cbn; auto. apply fst_run_search.
-  - unfold batch_get. destruct flavour; cbn; auto. destruct (c_failure c); [reflexivity|]. destruct (negb _); reflexivity.
+  - unfold batch_get. destruct flavour; cbn; auto. destruct (c_failure c); [reflexivity|].
+    match goal with |- context [match ?l with [] => _ | _ :: _ => _ end] => destruct l end; reflexivity.
   - destruct (c_failure c); reflexivity.
 Qed.
 
 (* ---- C08: a failing single request leaves the whole client state as it was ---- *)
-Lemma put_item_fail c tn it cond names vals :
-  res_ok (o_res (snd (put_item lang_match flavour c tn it cond names vals))) = false ->
-  fst (put_item lang_match flavour c tn it cond names vals) = c.
+Lemma put_item_fail c tn it cond names vals ro :
+  res_ok (o_res (snd (put_item lang_match flavour c tn it cond names vals ro))) = false ->
+  fst (put_item lang_match flavour c tn it cond names vals ro) = c.
 Proof.
   unfold put_item. destruct (preamble _ _ _ _ _ _) as [e|t]; cbn; auto.
   destruct (t_put lang_match (ctx_of c) t it cond names vals) as [t' r]. destruct r; cbn; auto. discriminate.
@@ -97,7 +98,7 @@ Qed.
 (* ---- C15: while a failure is active every single data operation fails with it and changes nothing ---- *)
 Definition name_of (o : op) : str :=
   match o with
-  | OPut t _ _ _ _ | OGet t _ _ _ | OUpdate t _ _ _ _ _ _ | ODelete t _ _ _ _ _ => t
+  | OPut t _ _ _ _ _ | OGet t _ _ _ | OUpdate t _ _ _ _ _ _ | ODelete t _ _ _ _ _ => t
   | _ => bs "xxx"
   end.
 
@@ -155,7 +156,7 @@ Qed.
 Theorem table_frame c o tn n :
   CInv (fun _ => True) c ->
   (match o with
-   | OPut t _ _ _ _ | OUpdate t _ _ _ _ _ _ | ODelete t _ _ _ _ _ | OClearTable t | ODeleteTable t
+   | OPut t _ _ _ _ _ | OUpdate t _ _ _ _ _ _ | ODelete t _ _ _ _ _ | OClearTable t | ODeleteTable t
    | OUpdateTable t _ _ _ | OAddIndex t _ _ _ | OGet t _ _ _ | OQuery t _ _ _ _ _ _ _ _ _ | OScan t _ _ _ _ _ _ _ | ODescribeTable t => t = tn
    | _ => False
    end) ->
